@@ -43,7 +43,8 @@ type Item struct {
 // Case is the replayable unit: one message schema and a few values.
 type Case struct {
 	Schema ps.Schema `json:"schema"`
-	Items  []Item    `json:"items"`
+	Items  []Item    `json:"items,omitempty"`
+	Fuzz   *FuzzIn   `json:"fuzz,omitempty"` // native fuzzing (FuzzWireDiff): raw wire input instead of values
 }
 
 // fail is a Failure plus the structured detail known-class predicates need.
@@ -90,6 +91,12 @@ func checkEncode(b *ps.Built, it *Item, idx int) *fail {
 	} else {
 		arg = gv.Interface()
 	}
+	return checkEncodeOf(b, arg, &it.V, idx)
+}
+
+// checkEncodeOf: seg.Marshal(arg), where arg holds the field values v, is
+// decoded by the reference to v.
+func checkEncodeOf(b *ps.Built, arg any, v *ps.Val, idx int) *fail {
 	data, err, pan := segMarshal(arg)
 	if pan != nil {
 		return recovered("encode", idx, -1, pan, nil)
@@ -107,7 +114,7 @@ func checkEncode(b *ps.Built, it *Item, idx int) *fail {
 			Dir: "encode", Item: idx, Wire: -1, Bytes: data}
 	}
 	got := b.FromDyn(0, dyn)
-	if ds := b.Compare(0, &it.V, &got); len(ds) > 0 {
+	if ds := b.Compare(0, v, &got); len(ds) > 0 {
 		return &fail{Failure: evid.Failure{Oracle: "reference decodes seg.Marshal(v) to the field values of v (go value vs reference)", Observed: ps.DiffsString(ds) + " | bytes " + evid.Hex(clip(data)), Expected: "equal field by field", Class: "encode-mismatch"},
 			Dir: "encode", Item: idx, Wire: -1, Diffs: ds, Bytes: data}
 	}
@@ -192,6 +199,10 @@ func checkAll(c *Case, skipped *int) (fails []*fail) {
 // checkCase is the oracle as a function of the case alone: first failure that
 // no active known class explains.
 func checkCase(c Case) *evid.Failure {
+	if c.Fuzz != nil {
+		f, _ := checkFuzz(&c)
+		return f
+	}
 	for _, f := range checkAll(&c, nil) {
 		if f.Dir == "harness" {
 			return &f.Failure
